@@ -58,7 +58,7 @@ def run(run):
     run.cov["negative_controls"] += [dict(kind="replay-panic", detected=1), dict(kind="replay-watchdog", detected=1)]
     # 3. parser fuzz + every zone of the bundled database through the public ZonedDateTime API
     for profile, b in (("dev", dev), ("release", rel)):
-        tr = run.record(b, "c03", (8000 if q else 120000) if profile == "dev" else (4000 if q else 60000), profile=profile)
+        tr = run.record(b, "c03", (10500 if q else 150000) if profile == "dev" else (5200 if q else 75000), profile=profile)
         run.validate("trace/Trace_NoPanic.tla", "trace/Trace_NoPanic.cfg", tr, label="c03." + profile)
         if profile == "dev":
             small = head_of(run, tr, 300, "c03.small.trace.ndjson")
